@@ -85,7 +85,8 @@ def _work(idx: int) -> dict:
                 return True
             return False
 
-        results, stats = E.explore(inst.fn, make_inputs, max_paths=inst.max_paths, witness_policy=policy)
+        results, stats = E.explore(inst.fn, make_inputs, max_paths=inst.max_paths, witness_policy=policy,
+                                   time_budget=_CFG.get("time_budget", 0.0))
     except Exception as e:
         out["errors"].append(f"symbolic run raised {type(e).__name__}: {e}\n{traceback.format_exc(limit=12)}")
         out["wall_s"] = time.time() - t0
@@ -113,16 +114,20 @@ def _work(idx: int) -> dict:
             # reproduced violation, a passing run claims nothing beyond that one input
             done = False
             if r.witness is not None:
-                I, err = _concrete_run(inst, r.witness)
-                if err is None or I.failed:
-                    done = True
-                    out["concretized"].append(r.detail[:200])
-                    for lab in I.failed:
-                        d = out["labels"].setdefault(lab, {"proved": 0, "failed": 0})
-                        d["failed"] += 1
-                        if not any(v["label"] == lab for v in out["violations"]):
-                            out["violations"].append({"label": lab, "instance": inst.name, "inputs": r.witness,
-                                                      "note": "found on a concretized path: " + r.detail[:120], "count": 1})
+                for wi, wit in enumerate([r.witness] + list(getattr(r, "extra_witnesses", []))):
+                    I, err = _concrete_run(inst, wit)
+                    if err is None or I.failed:
+                        if not done:
+                            out["concretized"].append(r.detail[:200])
+                        done = True
+                        for lab in I.failed:
+                            d = out["labels"].setdefault(lab, {"proved": 0, "failed": 0})
+                            d["failed"] += 1
+                            if not any(v["label"] == lab for v in out["violations"]):
+                                out["violations"].append({"label": lab, "instance": inst.name, "inputs": wit,
+                                                          "note": "found on a concretized path: " + r.detail[:120], "count": 1})
+                        if I.failed:
+                            break
             if not done:
                 out["unsupported"].append(r.detail[:300])
         elif r.status == "inconclusive":
@@ -228,7 +233,8 @@ def run_property(pid: str, instances: List[Instance], meta: dict, tier: str, see
     global _INSTANCES, _CFG
     t0 = time.time()
     _INSTANCES = sorted(instances, key=lambda i: -i.cost)
-    _CFG = {"seed": seed, "max_validate": 64 if tier == "quick" else 512}
+    _CFG = {"seed": seed, "max_validate": 64 if tier == "quick" else 512,
+            "time_budget": float(os.environ.get("SYMTDF_INSTANCE_BUDGET_S", "240" if tier == "quick" else "1500"))}
     os.makedirs(os.path.join(OUT, "replays", pid), exist_ok=True)
     if jobs > 1 and len(_INSTANCES) > 1:
         ctxmp = mp.get_context("fork")
@@ -358,8 +364,11 @@ def run_property(pid: str, instances: List[Instance], meta: dict, tier: str, see
         },
         "assumptions": meta.get("assumptions", []),
     }
-    os.makedirs(os.path.join(VERIF, "evidence"), exist_ok=True)
-    with open(os.path.join(VERIF, "evidence", f"{pid}.json"), "w") as fh:
+    # evidence describes /repo itself; runs against a scratch copy (BASICTDF_SRC, used for
+    # seeded changes) must not overwrite it
+    evdir = os.path.join(VERIF, "evidence") if not os.environ.get("BASICTDF_SRC") else os.path.join(OUT, "scratch-evidence")
+    os.makedirs(evdir, exist_ok=True)
+    with open(os.path.join(evdir, f"{pid}.json"), "w") as fh:
         json.dump(evidence, fh, indent=1, default=str)
 
     print(f"[{pid}] tier={tier} instances={len(_INSTANCES)} paths={tot['paths']} ok={tot['ok_paths']} "
